@@ -248,7 +248,22 @@ def confirm_unsat(ob, budget_s, tmpdir, tag, abstracted=False):
     return (out.splitlines() or ["?"])[0]
 
 
+def _plain(x):
+    """Results cross a process boundary: keep only plain data (model values may still hold solver objects)."""
+    if isinstance(x, dict):
+        return {(k if isinstance(k, (str, int, float, bool)) or k is None else repr(k)): _plain(v) for k, v in x.items()}
+    if isinstance(x, (list, tuple)):
+        return [_plain(v) for v in x]
+    if isinstance(x, (str, int, float, bool)) or x is None:
+        return x
+    return repr(x)
+
+
 def worker(task):
+    return _plain(_worker(task))
+
+
+def _worker(task):
     key, tier, budget_s, mutation, extra_requires = task
     out = {"key": key, "obligations": [], "error": None, "paths": 0, "inlined": [], "assumed": [], "notes": [],
            "digest": None, "seconds": 0.0, "mutation": mutation}
